@@ -140,7 +140,10 @@ class Env:
             return v.t
         name = self.data.columns[col]
         if name in self.symbolic_cols:
-            return z3.Real(f'{self.cell_prefix}_{row}_{name}')
+            rid = row
+            if ROW_ID_COL is not None and ROW_ID_COL in self.data.columns:
+                rid = int(self.data[ROW_ID_COL].iat[row])  # symbolic cells follow the row through sorting/removal
+            return z3.Real(f'{self.cell_prefix}_{rid}_{name}')
         return lift(float(v))
 
     def draw(self, ind: int, r: int, did: int):
@@ -620,6 +623,7 @@ class Recorder:
 
 SYMBOLIC_COLS: set = set()  # names of data columns whose cells are symbolic
 CELL_PREFIX = 'd'
+ROW_ID_COL = None  # name of a concrete column identifying the row (cells are then named by it, not by position)
 
 
 class SymEvaluateOneExpression:
@@ -869,11 +873,12 @@ class EEModule:
     pyBiogeme = SymBiogeme
 
 
-def install(symbolic_cols=(), cell_prefix='d'):
+def install(symbolic_cols=(), cell_prefix='d', row_id_col=None):
     """Route the real code to the symbolic engine (calculator.ee and biogeme.biogeme.cb)."""
-    global SYMBOLIC_COLS, CELL_PREFIX
+    global SYMBOLIC_COLS, CELL_PREFIX, ROW_ID_COL
     SYMBOLIC_COLS = set(symbolic_cols)
     CELL_PREFIX = cell_prefix
+    ROW_ID_COL = row_id_col
     import biogeme.expressions.calculator as calc
     calc.ee = EEModule
     try:
